@@ -348,7 +348,7 @@ class Literal:
         """Parse source when self.value represents a literal."""
         # we check position to ensure that the case pattern = '' and start >= len(source)
         # is handled correctly.
-        if start < len(source):
+        if start <= len(source):
             src = source[start : start + len(self.value)]
             match = src if self.case_sensitive else ascii_fold(src)
             if match == self.pattern:
